@@ -23,6 +23,7 @@ LEVEL_TEXT = (
     "synchronous writes, no destructive SQL reaches the auto-committing executescript, DELETE and INSERT are executed in "
     "that order inside the transaction that commit() closes, every exceptional path reaches rollback and every exit "
     "close; (R3) no handler on a load path swallows an exception. Byte-level truncation inside one file is not decided."
+    ' Per-file replacement (temp + os.replace of every file) without a protocol over the folder is reported as what it is: it turns a loud failure into a silent hybrid.'
 )
 TECHNIQUE = "ordered effect extraction (write plan) vs commit-protocol detection; CFG with exceptional edges for transaction discipline"
 
